@@ -9,8 +9,9 @@
     - [zsubset_okB]: subset0 / subset1 / change under the full cache invariant;
     - [zadd_vars_facts]: [add_vars] + chain rebuild: [ZbddOK], complete chain, every
       old reference keeps its FAMILY, its Boolean function becomes "old function
-      and all new variables false"; the cache invariant survives for every
-      entry except Restrict entries;
+      and all new variables false"; [zcacheokb_grows]: the cache invariant survives
+      in a grown table for every entry that does not depend on the number of
+      levels, and for Restrict entries if that number is unchanged;
     - [zgc_facts]: [gc_model] on the table whose roots are the handles and the
       chain: [ZbddOK], complete chain, families of the roots unchanged;
     - [zreorder_facts]: [set_var_order_model_z]: [ZbddOK], complete chain, handles
@@ -270,8 +271,8 @@ Lemma zcacheokb_grows : forall C (cget cget' : C -> N -> list ref -> list nat ->
      cget c k a m = Some r /\ (k = zcode_restrict -> nlevels s' = nlevels s)) ->
   ZCacheOKB C cget s c -> ZCacheOKB C cget' s' c'.
 Proof.
-  intros C cget cget' s s' c c' B G Hv Hcav O code args nums r E.
-  destruct (Hcav _ _ _ _ E) as [E0 Hne]. destruct (O _ _ _ _ E0) as [A A']. split.
+  intros C cget cget' s s' c c' B G Hv Hser O code args nums r E.
+  destruct (Hser _ _ _ _ E) as [E0 Hne]. destruct (O _ _ _ _ E0) as [A A']. split.
   - unfold zentry_ok in *. destruct args as [|f [|g [|x rest]]]; auto.
     + destruct nums as [|var [|y rest]]; auto.
       intros o Hc. destruct (A o Hc) as [P [vl [Ev [D1 D2]]]]. exists P, vl.
